@@ -22,13 +22,13 @@ CHECK = {
     "exhaustive": {"quick": False, "thorough": False},
     "stages": [
         {"name": "ctor", "variant": "asan", "harness": "c17_constructors.cpp",
-         "cases": {"quick": 2400, "thorough": 60000}, "params": {"mode": "ctor"}, "case_timeout": 120},
+         "cases": {"quick": 2400, "thorough": 20000}, "params": {"mode": "ctor"}, "case_timeout": 120},
         {"name": "levelset", "variant": "asan", "harness": "c17_constructors.cpp",
-         "cases": {"quick": 48, "thorough": 1600}, "params": {"mode": "levelset"}, "case_timeout": 300},
+         "cases": {"quick": 48, "thorough": 320}, "params": {"mode": "levelset"}, "case_timeout": 300},
         {"name": "xform", "variant": "asan", "harness": "c17_constructors.cpp",
-         "cases": {"quick": 800, "thorough": 30000}, "params": {"mode": "xform"}, "case_timeout": 120},
+         "cases": {"quick": 800, "thorough": 8000}, "params": {"mode": "xform"}, "case_timeout": 120},
         {"name": "quality", "variant": "asan", "harness": "c17_constructors.cpp",
-         "cases": {"quick": 600, "thorough": 12000}, "params": {"mode": "quality"}, "case_timeout": 120},
+         "cases": {"quick": 600, "thorough": 4000}, "params": {"mode": "quality"}, "case_timeout": 120},
     ],
     "assumptions": [
         "faceting bands as derived in the header of harness/c17_constructors.cpp: Cube/Tetrahedron exact; Sphere inside "
